@@ -150,7 +150,7 @@ def gen_universe(rnd, uid):
     elif r < 0.85:
         files['E'] = {'suffix': '.csv', 'text': gen_csv_file(rnd, 'E')}
     txns = []
-    for i in range(rnd.randint(4, 6)):
+    for i in range(rnd.randint(2, 4)):
         f = rnd.choice([None, {'kind': 'ACH', 'memo': 'REF 1'}, {'kind': 'wire'}, {'kind': 'ach'}])
         t = {'description': rnd.choice(DESCS), 'amount': rnd.choice([5.0, 15.0, 50.0, 250.0, -20.0]),
              'date': rnd.choice(['2025-01-15', '2025-12-03']), 'field': f,
@@ -160,6 +160,22 @@ def gen_universe(rnd, uid):
             t['field'] = {'kind': (f or {}).get('kind', 'ACH')}
         txns.append(t)
     k = rnd.choice(TOKENS)
+    # two transactions on which every case twin below means something different
+    txns.append({'description': f'{k}5 MKTP', 'amount': 50.0, 'date': '2025-01-15', 'field': {'kind': 'ACH'},
+                 'source': 'AMEX', 'location': None})
+    txns.append({'description': f'{k} x{k.lower()}', 'amount': 250.0, 'date': '2025-12-03', 'field': {'kind': 'ach'},
+                 'source': 'amex', 'location': None})
+    twins = [(a, b) for a, b in match_templates(k, rnd.choice(TOKENS)) if b]
+    leak = None
+    # a top-level variable defined by A only and used by another .rules file: what a re-parse that forgets to
+    # reset engine state would leak
+    if rnd.random() < 0.7:
+        other = 'B' if 'B' in files else 'D'
+        if not files['A']['text'].startswith('big ='):
+            files['A']['text'] = 'big = amount > 10\n' + files['A']['text']
+        body = '\n'.join(l for l in files[other]['text'].split('\n') if not l.startswith('big ='))
+        files[other]['text'] = f'[{other}v {k.title()}]\nmatch: big and contains("{k}")\ncategory: Var-{other}\n\n' + body
+        leak = other
     pool = [e for tpl in match_templates(k, rnd.choice(TOKENS)) for e in tpl if e]
     exprs = rnd.sample(pool, 4) + rnd.sample(
         ['amount > 100', ' amount > 100 ', 'Amount > 100', 'amount >', '__import__("os")', 'description.lower()',
@@ -168,7 +184,7 @@ def gen_universe(rnd, uid):
         if rnd.random() < 0.3:
             exprs.append(e)
     fexprs = ['sum(payments) > 10 and "x" in tags', 'count(payments) > 1', 'amount > 100']
-    return {'id': uid, 'files': files, 'txns': txns, 'exprs': exprs, 'filter_exprs': fexprs,
+    return {'id': uid, 'files': files, 'txns': txns, 'exprs': exprs, 'filter_exprs': fexprs, 'twins': twins, 'leak': leak,
             'data_sources': {'orders': [{'item': 'Book', 'amount': 50.0}, {'item': 'Pen', 'amount': 5.0}]}}
 
 
@@ -197,6 +213,38 @@ def gen_history(rnd, uni):
         h[0] = {'op': 'load', 'file': rnd.choice(sorted(uni['files']))}
         h[n // 2] = {'op': 'load', 'file': rnd.choice(sorted(uni['files']) + [None])}
     return h
+
+
+def twin_histories(rnd, uni, n):
+    """evaluate an expression, then its case twin (same text up to letter case, different meaning) on the same
+    transaction — and, for rule files, classify under A then under a file holding the twin rule"""
+    out = []
+    nt = len(uni['txns'])
+    for _ in range(n):
+        a, b = rnd.choice(uni['twins'])
+        if rnd.random() < 0.5:
+            a, b = b, a
+        t = rnd.choice([nt - 1, nt - 2])
+        h = [{'op': 'eval', 'src': a, 'txn': t}, {'op': 'eval', 'src': rnd.choice([b, b, ' ' + b, b + ' ']), 'txn': t}]
+        if rnd.random() < 0.3:
+            h.insert(0, {'op': 'load', 'file': rnd.choice(sorted(uni['files']))})
+            h.append({'op': 'classify', 'txn': t})
+        out.append(h)
+    return out
+
+
+def reparse_histories(rnd, uni, n):
+    """one engine object parsed twice, then matched: engine.parse must forget everything of the first file"""
+    out = []
+    nt = len(uni['txns'])
+    rules = sorted(n_ for n_, f in uni['files'].items() if f['suffix'] == '.rules')
+    for j in range(n):
+        a, b = rnd.choice(rules), rnd.choice(rules)
+        if j == 0 and uni.get('leak'):
+            a, b = 'A', uni['leak']
+        out.append([{'op': 'engparse', 'file': a}, {'op': 'engparse', 'file': b},
+                    {'op': 'engmatch', 'txn': rnd.choice([nt - 1, nt - 2])}, {'op': 'engmatch', 'txn': rnd.randrange(nt)}])
+    return out
 
 
 def systematic_histories(uni):
@@ -563,19 +611,22 @@ def model_check(unis, all_hists, all_results, freshes, fx, pool, name='C07'):
     if cur:
         chunks.append(cur)
 
-    def one(ci, uis):
+    bodies = []
+    for ci, uis in enumerate(chunks):          # phase 1: oracle tables (fresh interpreters, <= PAR at a time)
         body = []
         for ui in uis:
-            tabs, obs = model_tables(unis[ui], all_hists[ui], all_results[ui], freshes[ui], fx, pool2)
+            tabs, obs = model_tables(unis[ui], all_hists[ui], all_results[ui], freshes[ui], fx, pool)
             body.append(f'Definition T{ui} : tabs := {tabs}.\nDefinition H{ui} : list (list ((nat * nat * string) * obs)) := [\n' +
                         ';\n'.join(obs) + '\n].\n')
         body.append('Eval vm_compute in [' + '; '.join(f'({ui}, failing_h T{ui} {cbool(fx)} 0 H{ui})' for ui in uis) + '].\n')
-        rc, out, err = run_cases(f'{name}_{ci}', HEADER, '\n'.join(body))
+        bodies.append((ci, uis, '\n'.join(body)))
+
+    def one(ci, uis, body):                     # phase 2: the model, inside coqc
+        rc, out, err = run_cases(f'{name}_{ci}', HEADER, body)
         return uis, rc, out, err
-    pool2 = ThreadPoolExecutor(PAR)
     bad, n = [], 0
-    with ThreadPoolExecutor(2) as cp:
-        for uis, rc, out, err in cp.map(lambda a: one(*a), list(enumerate(chunks))):
+    with ThreadPoolExecutor(min(PAR, 3)) as cp:
+        for uis, rc, out, err in cp.map(lambda a: one(*a), bodies):
             m = re.search(r'=\s*\[(.*)\]\s*:\s*list \(nat \* list nat\)', out, re.S)
             if rc != 0 or not m:
                 return None, n, (out + err)[-1500:]
@@ -623,11 +674,11 @@ def main(tier):
     fx = bool(facts and facts['cached']['resets'])
 
     rnd = random.Random(run.seed * 7919 + 7)
-    n_uni, n_hist, n_sys = (18, 12, 3) if tier == 'quick' else (150, 40, 30)
+    n_uni, n_hist, n_sys, n_twin = (12, 10, 2, 3) if tier == 'quick' else (150, 40, 30, 12)
     unis = [gen_universe(rnd, i) for i in range(n_uni)]
     all_hists = []
     for i, u in enumerate(unis):
-        hs = [gen_history(rnd, u) for _ in range(n_hist)]
+        hs = [gen_history(rnd, u) for _ in range(n_hist)] + twin_histories(rnd, u, n_twin) + reparse_histories(rnd, u, 2)
         if i < n_sys:
             hs += systematic_histories(u)
         all_hists.append(hs)
@@ -672,7 +723,7 @@ def main(tier):
     # cache keys are exact substrings of what was handed in (a normalised key would not be)
     key_bad = []
     for ui, (u, hs) in enumerate(zip(unis, all_hists)):
-        texts = [f['text'] for f in u['files'].values()] + u['exprs'] + u['filter_exprs']
+        texts = [f['text'] for f in u['files'].values()] + u['exprs'] + u['filter_exprs'] + [o['src'] for h in hs for o in h if o['op'] == 'eval']
         texts += [t.replace('""', '"') for t in texts]      # CSV quoting of a pattern cell
         for h, r in zip(hs, all_results[ui]):
             for x in r:
